@@ -36,12 +36,14 @@ def conclude(prop, spec, tier, base_seed, out, shrink=True):
     meta = dict(rule=spec["rule"], assumptions=spec["assumptions"], coverage_extra=spec.get("coverage_extra", {}))
     for k, (entry, n) in out["known_hits"].items():
         print(f"KNOWN-FINDING: property={prop} {entry['what']} (id={k}, seen {n}x in this run)")
-    if out["harness_errors"]:
+    if out["harness_errors"] and not out["violations"]:
         for h in out["harness_errors"][:5]:
             print("HARNESS-ERROR", h)
         runner.write_evidence(prop, tier, base_seed, spec["level"], out, meta, len(out["violations"]))
         return 2
     if out["violations"]:
+        for h in out["harness_errors"][:3]:
+            print("(also) HARNESS-ERROR", h)
         out["violations"].sort(key=lambda t: t[0])
         idx, seed, desc, v = out["violations"][0]
         print(f"violation found: case idx={idx} seed={seed} oracle={v['oracle']}: {v['msg'][:600]}")
@@ -157,7 +159,7 @@ reg("C18", "checks.tz", dict(quick=1200, thorough=25000), dict(quick=55, thoroug
     "under 4-6 variants of (process TZ via tzset, rendering of every store's modified time as naive-local / aware UTC / "
     "aware fixed offset / aware zone / real file mtime reported by uberjob.stores.get_modified_time, rendering of "
     "fresh_time); every variant must rebuild exactly the set computed on the instants",
-    assumptions=["zoneinfo database of the sandbox"], chunk=4, recheck_every=25)
+    assumptions=["zoneinfo database of the sandbox"], chunk=4, recheck_every=5)
 
 reg("C19", "checks.attribution", dict(quick=2600, thorough=60000), dict(quick=55, thorough=900), "exploration",
     ENGINE_RULE + "; every symbolic call / registry entry is created through helper functions nested -1..6 deep "
